@@ -123,6 +123,19 @@ impl HeaderPrefix {
         }
     }
 
+    /// The Encoded Required Insert Count, as found on the wire
+    pub fn encoded_insert_count(&self) -> usize {
+        self.encoded_insert_count
+    }
+
+    /// The Base when the Required Insert Count is zero: negative if the sign bit is set
+    pub fn base_without_refs(&self) -> Result<usize, ParseError> {
+        if self.sign_negative {
+            return Err(ParseError::InvalidBase(-1 - self.delta_base as isize));
+        }
+        Ok(self.delta_base)
+    }
+
     pub fn get(
         self,
         total_inserted: usize,
